@@ -1,6 +1,6 @@
 SPECIFICATION Spec
 CONSTANTS
-  FAMSEL = {"list", "vec", "hash", "hset", "struct", "box", "strs", "mixed", "leaf", "sim"}
+  FAMSEL = {"list", "vec", "hash", "hset", "struct", "box", "strs", "mixed", "leaf", "sim", "tails"}
   NBUMP = 0
   SEED = 1
   BRANCH = 4
